@@ -155,7 +155,8 @@ Record sreq := {
   q_method : bytes; q_target : bytes; q_proto : bytes;
   q_hdrs : list (bytes * bytes);
   q_body : bytes;
-  q_urlhost : bytes   (* Host component of the parsed target ("" for origin-form) *)
+  q_urlhost : bytes;  (* Host component of url.ParseRequestURI(target) ("" for origin-form) *)
+  q_authhost : bytes  (* Host component of url.ParseRequestURI("http://"+target): used for CONNECT authority targets *)
 }.
 
 Inductive urlrep := UParse (t : bytes) | UAuthority (t : bytes).
@@ -199,13 +200,13 @@ Definition fix_pragma (h : hmap) : hmap :=
 Definition spec_read_request (q : sreq) : creq :=
   let h := hdr_of_lines (q_hdrs q) in
   let hostv := match h_get h sHost with v :: _ => v | [] => [] end in
+  let just_authority := beq (q_method q) sCONNECT && negb (starts_with_slash (q_target q)) in
   {| c_method := q_method q;
      c_uri := q_target q;
-     c_url := if beq (q_method q) sCONNECT && negb (starts_with_slash (q_target q))
-              then UAuthority (q_target q) else UParse (q_target q);
+     c_url := if just_authority then UAuthority (q_target q) else UParse (q_target q);
      c_proto := q_proto q;
      c_major := proto_major (q_proto q);
      c_minor := proto_minor (q_proto q);
-     c_host := match q_urlhost q with [] => hostv | uh => uh end;
+     c_host := match (if just_authority then q_authhost q else q_urlhost q) with [] => hostv | uh => uh end;
      c_hdr := h_del (h_del (fix_pragma h) sTransferEncoding) sHost;
      c_body := q_body q |}.
